@@ -115,7 +115,7 @@ def _schema_text(name: str) -> bytes:
 
 
 DIR_SEGS = ["docs", "dir", "dir/deep", "newdir", ".", "..", "ln_dir_in", "ln_dir_out", "dangling_dir", "chain1", "loop",
-            "docs/ln_up", "docs/ln_out", "", "vocab", "\uff44\uff4f\uff43\uff53", "cafe\u0301", "\u212bdir", "\uff0e\uff0e", "\u2024\u2024"]
+            "docs/ln_up", "docs/ln_out", "", "vocab", "~", "$HOME", "${HOME}", "~root", "\uff44\uff4f\uff43\uff53", "cafe\u0301", "\u212bdir", "\uff0e\uff0e", "\u2024\u2024"]
 FINAL_SEGS = ["a.oct.md", "new.oct.md", "new.octave", "new.md", "b.md", "c.octave", "top.oct.md", "new.txt", "notes.txt",
               "new.oct.md.bak", "new.tar.md", "new.oct.MD", "NEW.OCT.MD", "new.md.", "new", "new.oct.md/", "ln_file_in.oct.md",
               "ln_file_out.oct.md", "dangling.oct.md", "dangling_out.oct.md", "dangling2.md", "loop.oct.md", "", "a\x00b.oct.md",
@@ -123,7 +123,7 @@ FINAL_SEGS = ["a.oct.md", "new.oct.md", "new.octave", "new.md", "b.md", "c.octav
               "new.m\u0501", "new.oct.md\u200b", "new.\uff2d\uff24", "new.md\n", "new.md\t", "x..md", ".oct.md", "new.octave.", "new.OCTAVE",
               "new.oct.md.", "new.md/.", "new.md/..", "new.txt/../new.md", "new.md\\", "new.oct", "new.octave.txt", "new.mdx", "newmd",
               "new.oct.md~", "new.md;x.txt", "new.md%00.txt", "caf\u00e9.md", "cafe\u0301.md",
-              "note.oct.\uff4d\uff44", "note.\uff4d\uff44", "note\uff0emd", "note.m\u217e", "\ufb01le.oct.md", "note.md\u0301", "note.oct\u2024md"]
+              "~.oct.md", " new.oct.md", "new.oct.md\r", "$OVHOME.oct.md", "note.oct.\uff4d\uff44", "note.\uff4d\uff44", "note\uff0emd", "note.m\u217e", "\ufb01le.oct.md", "note.md\u0301", "note.oct\u2024md"]
 
 
 def gen_path(t: Tape) -> dict:
@@ -366,7 +366,9 @@ def run_path_case(case: dict, stats: Stats | None = None) -> dict:
         # `-o ""` means "no output file": the command prints to stdout; no path was handed over as a file to write
         cl = {"must_refuse": False, "why": [], "abs": None}
     rec = Recorder(root)
-    sim, a, resolved = rec.run(make_path_call(kind, path_str, root), cwd=cwd)
+    # HOME (and a variable of our own) point INTO the run root: an argument that gets '~' / '$VAR' expanded lands where we look
+    os.environ["OVHOME"] = os.path.join(root, "home")
+    sim, a, resolved = rec.run(make_path_call(kind, path_str, root), cwd=cwd, home=os.path.join(root, "home"))
     snap1 = snapshot_m(root)
     d = diff_m(snap0, snap1)
     if d:
